@@ -47,6 +47,7 @@ private theorem watch_flushed {α : Type} (c : Cancel) (T : Int) (ab : Option Ab
     split
     · cases ev with
       | chunk b => simp only [push_out, flushed_emit]; exact watch_flushed c T ab rest (now + g)
+      | last b => simp [emitChunk, outs, flushedEach]
       | eof => simp [outs, flushedEach]
       | err => simp [outs, flushedEach]
       | stallForever => simp [giveUp_out, outs, flushedEach]
@@ -62,6 +63,7 @@ private theorem poll_flushed {α : Type} (T : Int) (ab : Option Abort) :
     · simp [blocked_out, outs, flushedEach]
     · cases ev with
       | chunk b => simp only [push_out, flushed_emit]; exact poll_flushed T ab rest _ (now + g)
+      | last b => simp [emitChunk, outs, flushedEach]
       | eof => simp [outs, flushedEach]
       | err => simp [outs, flushedEach]
       | stallForever => simp [blocked_out, outs, flushedEach]
@@ -87,6 +89,7 @@ private theorem watch_noflush {α : Type} (c : Cancel) (T : Int) (ab : Option Ab
     split
     · cases ev with
       | chunk b => simp only [push_out, noFlush_emit]; exact watch_noflush c T ab rest (now + g)
+      | last b => simp [emitChunk, outs, noFlush]
       | eof => simp [outs, noFlush]
       | err => simp [outs, noFlush]
       | stallForever => simp [giveUp_out, outs, noFlush]
@@ -102,6 +105,7 @@ private theorem poll_noflush {α : Type} (T : Int) (ab : Option Abort) :
     · simp [blocked_out, outs, noFlush]
     · cases ev with
       | chunk b => simp only [push_out, noFlush_emit]; exact poll_noflush T ab rest _ (now + g)
+      | last b => simp [emitChunk, outs, noFlush]
       | eof => simp [outs, noFlush]
       | err => simp [outs, noFlush]
       | stallForever => simp [blocked_out, outs, noFlush]
@@ -198,6 +202,37 @@ theorem complete_delivery_olla {α : Type} [DecidableEq α] (v : Variant) (T : I
   · simp only [ollaLoop, watchLoop, abortedBefore, hge, and_self, if_true] at e
     simp [e, Result.push, deliveredWhole, hw]
 
+private theorem written_append {α : Type} (a b : Trace α) : written (outs (a ++ b)) = written (outs a) ++ written (outs b) := by
+  induction a with
+  | nil => simp [outs, written]
+  | cons e tl ih =>
+    obtain ⟨t, o⟩ := e
+    cases o <;> simp [outs, written] at ih ⊢ <;> exact ih
+
+private theorem written_emit {α : Type} (st : Bool) (t : Int) (b : List α) : written (outs (emitChunk st t b)) = b := by
+  cases st <;> simp [emitChunk, outs, written]
+
+/-- The same for a Content-Length body, whose final bytes arrive together with EOF (`Ev.last`). -/
+theorem complete_delivery_content_length {α : Type} [DecidableEq α] (v : Variant) (T grace : Int) (st : Bool) (chunks : Sched α)
+    (b : List α) (ge now : Int) (h : Short T chunks) (hge : ge < T) :
+    let rs := sherpaLoop T grace st none now (chunks ++ [(ge, Ev.last b)])
+    let ro := ollaLoop v T st none now (chunks ++ [(ge, Ev.last b)])
+    (rs.outcome = some Outcome.complete ∧ deliveredWhole (payload chunks ++ b) (written (outs rs.out)) = true) ∧
+    (ro.outcome = some Outcome.complete ∧ deliveredWhole (payload chunks ++ b) (written (outs ro.out)) = true) := by
+  intro rs ro
+  have es : rs = _ := pause_not_cut_sherpa T grace st chunks [(ge, Ev.last b)] now h
+  have eo : ro = _ := pause_not_cut_olla v T st chunks [(ge, Ev.last b)] now h
+  have hw := written_live st chunks now (fun e he => (h e he).2)
+  constructor
+  · simp only [sherpaLoop, watchLoop, abortedBefore, hge, and_self, if_true] at es
+    simp [es, Result.push, deliveredWhole, written_append, written_emit, hw]
+  · cases v
+    · simp only [ollaLoop, pollLoop, abortedBefore] at eo
+      simp at eo
+      simp [eo, Result.push, deliveredWhole, written_append, written_emit, hw]
+    · simp only [ollaLoop, watchLoop, abortedBefore, hge, and_self, if_true] at eo
+      simp [eo, Result.push, deliveredWhole, written_append, written_emit, hw]
+
 /-! ### A stall ends the request by lastProgress + readTimeout -/
 
 private theorem times_emit {α : Type} (st : Bool) (t : Int) (b : List α) (tr : Trace α) :
@@ -228,6 +263,10 @@ private theorem watch_bounded {α : Type} (c : Cancel) (T : Int) (hT : 0 ≤ T) 
         refine ⟨o, by simpa [push_outcome] using ho, ?_⟩
         simp only [push_out, push_endT]
         exact bounded_emit T hT st now (now + g) b _ _ (by omega) hb
+      | last b =>
+        refine ⟨.complete, rfl, ?_⟩
+        have := bounded_emit T hT st now (now + g) b [] (now + g) (by omega) (by simp [times, silenceBounded, hT])
+        simpa using this
       | eof => exact ⟨.complete, rfl, by simp [times, silenceBounded]; omega⟩
       | err => exact ⟨.upstreamError, rfl, by simp [times, silenceBounded]; omega⟩
       | stallForever => exact ⟨.readTimeout, by simp [giveUp], by simp [giveUp, times, silenceBounded]; omega⟩
@@ -316,6 +355,7 @@ theorem olla_pinned_not_stall_bounded :
 def LiveAndEnding {α : Type} (T : Int) : Sched α → Prop
   | [] => False
   | (g, .chunk _) :: rest => g < T ∧ LiveAndEnding T rest
+  | (g, .last _) :: _ => g < T
   | (g, .eof) :: _ => g < T
   | (g, .err) :: _ => g < T
   | (_, .stallForever) :: _ => False
@@ -333,6 +373,11 @@ private theorem poll_bounded_partial {α : Type} (T : Int) (hT : 0 ≤ T) (st : 
     refine ⟨o, by simpa [push_outcome] using ho, ?_⟩
     simp only [push_out, push_endT]
     exact bounded_emit T hT st now (now + g) b _ _ (by omega) hb
+  | (g, .last b) :: _, now, h => by
+    simp only [LiveAndEnding] at h
+    refine ⟨.complete, by simp [pollLoop, abortedBefore], ?_⟩
+    have := bounded_emit T hT st now (now + g) b [] (now + g) (by omega) (by simp [times, silenceBounded, hT])
+    simpa [pollLoop, abortedBefore] using this
   | (g, .eof) :: _, now, h => by
     simp only [LiveAndEnding] at h
     exact ⟨.complete, by simp [pollLoop, abortedBefore], by simp [pollLoop, abortedBefore, times, silenceBounded]; omega⟩
@@ -395,6 +440,7 @@ private theorem watch_abort_sherpa {α : Type} (T grace : Int) (hgr : 0 ≤ grac
         obtain ⟨h1, o, ho, he⟩ := watch_abort_sherpa T grace hgr st a rest (now + g) hle
         refine ⟨?_, o, by simpa [push_outcome] using ho, by simpa [push_endT] using he⟩
         simp only [push_out, nothingAfter_append, nothingAfter_emit st a.t (now + g) b hle, h1, Bool.and_self]
+      | last b => exact ⟨nothingAfter_emit st a.t (now + g) b hle, .complete, rfl, by simp only; omega⟩
       | eof => exact ⟨by simp [nothingAfter], .complete, rfl, by simp only; omega⟩
       | err => exact ⟨by simp [nothingAfter], .upstreamError, rfl, by simp only; omega⟩
       | stallForever =>
@@ -443,6 +489,7 @@ private theorem watch_abort_olla {α : Type} (T : Int) (st : Bool) (a : Abort) (
         obtain ⟨h1, o, ho, he⟩ := watch_abort_olla T st a d hd hd0 rest (now + g) hle
         refine ⟨?_, o, by simpa [push_outcome] using ho, by simpa [push_endT] using he⟩
         simp only [push_out, nothingAfter_append, nothingAfter_emit st a.t (now + g) b hle, h1, Bool.and_self]
+      | last b => exact ⟨nothingAfter_emit st a.t (now + g) b hle, .complete, rfl, by simp only; omega⟩
       | eof => exact ⟨by simp [nothingAfter], .complete, rfl, by simp only; omega⟩
       | err => exact ⟨by simp [nothingAfter], .upstreamError, rfl, by simp only; omega⟩
       | stallForever =>
@@ -478,6 +525,7 @@ private theorem poll_abort {α : Type} (T : Int) (st : Bool) (a : Abort) (d : In
         obtain ⟨h1, o, ho, he⟩ := poll_abort T st a d hd hd0 rest (decide (T ≤ g)) (now + g) hle
         refine ⟨?_, o, by simpa [push_outcome] using ho, by simpa [push_endT] using he⟩
         simp only [push_out, nothingAfter_append, nothingAfter_emit st a.t (now + g) b hle, h1, Bool.and_self]
+      | last b => exact ⟨nothingAfter_emit st a.t (now + g) b hle, .complete, rfl, by simp only; omega⟩
       | eof => exact ⟨by simp [nothingAfter], .complete, rfl, by simp only; omega⟩
       | err => exact ⟨by simp [nothingAfter], .upstreamError, rfl, by simp only; omega⟩
       | stallForever =>
